@@ -23,7 +23,51 @@ const (
 type Array struct {
 	E  []Int
 	RO bool
-	ET *Type // declared element type of the object (refinements included); nil for caller buffers
+	ET *Type // declared (innermost) element type of the object, refinements included; nil for caller buffers
+	// Recv: the array is (part of) a receiver object's field. owner: the frame
+	// whose local variable it is (nil for fields and caller buffers).
+	Recv  bool
+	owner *frame
+}
+
+// flatSize is the number of scalars a value of type ty occupies in a backing store.
+func flatSize(ty *Type) int {
+	if ty != nil && ty.K == TArray {
+		return ty.Len * flatSize(ty.Elem)
+	}
+	return 1
+}
+
+func innermost(ty *Type) *Type {
+	for ty != nil && ty.K == TArray {
+		ty = ty.Elem
+	}
+	return ty
+}
+
+// elemSize is the flat size of one element of an array / slice / pointer-to-array typed expression.
+func elemSize(ty *Type) int {
+	if ty == nil {
+		return 1
+	}
+	switch ty.K {
+	case TArray, TSlice:
+		return flatSize(ty.Elem)
+	case TPtr:
+		if ty.Elem != nil && ty.Elem.K == TArray {
+			return flatSize(ty.Elem.Elem)
+		}
+	}
+	return 1
+}
+
+// arrView is the flat range of an array value (nested arrays are views into
+// the flat backing store of the outermost one; Lo == Hi == 0 means all of it).
+func arrView(v Value) (int, int) {
+	if v.Lo == 0 && v.Hi == 0 {
+		return 0, len(v.A.E)
+	}
+	return v.Lo, v.Hi
 }
 
 // storeElem writes v into the backing store, demanding that it respects the
@@ -33,6 +77,7 @@ func (m *Machine) storeElem(e *Expr, arr *Array, idx int, v Int) {
 	if arr.ET != nil && arr.ET.K == TInt && !inRange(v, arr.ET) {
 		m.fail("store-range", e, "value %s stored into an element declared %s", v, arr.ET.Str)
 	}
+	m.pureStore(e, arr, false)
 	arr.E[idx] = v
 }
 
@@ -66,7 +111,8 @@ func (v Value) String() string {
 		}
 		return fmt.Sprintf("%q", v.S)
 	case VArray:
-		return fmt.Sprintf("array%v", intsString(v.A.E))
+		lo, hi := arrView(v)
+		return fmt.Sprintf("array%v", intsString(v.A.E[lo:hi]))
 	case VSlice:
 		if v.A == nil {
 			return "slice[]"
@@ -115,11 +161,11 @@ func (p *Prog) ZeroValue(ty *Type) Value {
 	case TStatus:
 		return Value{K: VStatus}
 	case TArray:
-		if ty.Elem == nil || (ty.Elem.K != TInt && ty.Elem.K != TBool) {
-			// Arrays of structs / arrays: E1 never accesses them; an opaque placeholder.
+		if in := innermost(ty); in == nil || (in.K != TInt && in.K != TBool) {
+			// Arrays of structs: E1 never accesses them; an opaque placeholder.
 			return Value{K: VEmpty}
 		}
-		return Value{K: VArray, A: &Array{E: make([]Int, ty.Len), ET: ty.Elem}}
+		return Value{K: VArray, A: &Array{E: make([]Int, flatSize(ty)), ET: innermost(ty)}}
 	case TSlice:
 		return Value{K: VSlice}
 	case TPtr:
@@ -145,6 +191,9 @@ func (p *Prog) NewObject(structName string) *Object {
 	o := &Object{SI: si, F: make([]Value, len(si.Fields))}
 	for i, f := range si.Fields {
 		o.F[i] = p.ZeroValue(f.Typ)
+		if o.F[i].K == VArray {
+			o.F[i].A.Recv = true
+		}
 	}
 	return o
 }
@@ -153,7 +202,7 @@ func (o *Object) Clone() *Object {
 	n := &Object{SI: o.SI, F: make([]Value, len(o.F)), Disabled: o.Disabled, ActiveCo: o.ActiveCo}
 	for i, v := range o.F {
 		if v.K == VArray {
-			v.A = &Array{E: append([]Int(nil), v.A.E...), RO: v.A.RO, ET: v.A.ET}
+			v.A = &Array{E: append([]Int(nil), v.A.E...), RO: v.A.RO, ET: v.A.ET, Recv: v.A.Recv}
 		}
 		if v.K == VPtr && v.O != nil && o.SI.Fields[i].Typ.K == TStruct {
 			v.O = v.O.Clone()
@@ -187,7 +236,8 @@ func hashValue(h uint64, v Value) uint64 {
 			h *= 1099511628211
 		}
 	case VArray:
-		for _, x := range v.A.E {
+		lo, hi := arrView(v)
+		for _, x := range v.A.E[lo:hi] {
 			h = x.Hash64(h)
 		}
 	case VSlice:
@@ -305,6 +355,10 @@ type Machine struct {
 	CheckBounds bool
 	// WantTrace: fill CallResult.Trace.
 	WantTrace bool
+	// CheckPure enables the purity monitor (C10): see pureStore and runFrame.
+	CheckPure bool
+	// PureCalls counts the calls of pure methods bracketed by the purity monitor.
+	PureCalls int64
 
 	Steps   int64 // statements executed
 	Evals   int64 // expression nodes evaluated
@@ -691,7 +745,8 @@ func (m *Machine) evalAs(fr *frame, e *Expr) Value {
 func (m *Machine) view(e *Expr, v Value) (*Array, int, int) {
 	switch v.K {
 	case VArray:
-		return v.A, 0, len(v.A.E)
+		lo, hi := arrView(v)
+		return v.A, lo, hi
 	case VSlice:
 		if v.Poison {
 			m.PoisonUses++
@@ -711,9 +766,14 @@ func (m *Machine) evalIndex(fr *frame, e *Expr) Value {
 	base := m.eval(fr, e.L)
 	i := m.eval(fr, e.R).I
 	arr, lo, hi := m.view(e, base)
+	es := elemSize(e.L.Typ)
 	n, small := i.Int64()
-	if !small || n < 0 || n >= int64(hi-lo) {
-		m.fail("index-oob", e, "index %s outside [0, %d)", i, hi-lo)
+	if !small || n < 0 || n >= int64((hi-lo)/es) {
+		m.fail("index-oob", e, "index %s outside [0, %d)", i, (hi-lo)/es)
+	}
+	if es > 1 {
+		// An element that is itself an array: a view into the flat backing store.
+		return Value{K: VArray, A: arr, Lo: lo + int(n)*es, Hi: lo + (int(n)+1)*es}
 	}
 	return IntVal(arr.E[lo+int(n)])
 }
@@ -721,7 +781,8 @@ func (m *Machine) evalIndex(fr *frame, e *Expr) Value {
 func (m *Machine) evalSlice(fr *frame, e *Expr) Value {
 	base := m.eval(fr, e.L)
 	arr, lo, hi := m.view(e, base)
-	length := int64(hi - lo)
+	es := elemSize(e.L.Typ)
+	length := int64((hi - lo) / es)
 	i, j := int64(0), length
 	if e.M != nil {
 		v := m.eval(fr, e.M).I
@@ -742,7 +803,7 @@ func (m *Machine) evalSlice(fr *frame, e *Expr) Value {
 	if i > j {
 		m.fail("slice-oob", e, "low bound %d exceeds high bound %d", i, j)
 	}
-	return Value{K: VSlice, A: arr, Lo: lo + int(i), Hi: lo + int(j)}
+	return Value{K: VSlice, A: arr, Lo: lo + int(i)*es, Hi: lo + int(j)*es}
 }
 
 var peekWidths = map[string][2]int{ // method -> {nbytes, bigEndian}
@@ -834,7 +895,7 @@ func (m *Machine) evalCall(fr *frame, e *Expr) Value {
 		n := recv.Hi - recv.Lo
 		switch e.Meth {
 		case "length":
-			return IntVal(I64(int64(n)))
+			return IntVal(I64(int64(n / elemSize(e.L.Typ))))
 		case "copy_from_slice":
 			src := args[0]
 			k := src.Hi - src.Lo
